@@ -214,7 +214,7 @@ func (r *ReplicaChecker) checkLocationReplacement(region *core.RegionInfo) *oper
 		return nil
 	}
 
-	newPeer := &metapb.Peer{StoreId: newStore}
+	newPeer := replacementPeer(region, oldStore, newStore)
 	op, err := operator.CreateMovePeerOperator("move-to-better-location", r.cluster, region, operator.OpReplica, oldStore, newPeer)
 	if err != nil {
 		checkerCounter.WithLabelValues("replica_checker", "create-operator-fail").Inc()
@@ -245,7 +245,7 @@ func (r *ReplicaChecker) fixPeer(region *core.RegionInfo, storeID uint64, status
 		log.Debug("no best store to add replica", zap.Uint64("region-id", region.GetID()))
 		return nil
 	}
-	newPeer := &metapb.Peer{StoreId: target}
+	newPeer := replacementPeer(region, storeID, target)
 	replace := fmt.Sprintf("replace-%s-replica", status)
 	op, err := operator.CreateMovePeerOperator(replace, r.cluster, region, operator.OpReplica, storeID, newPeer)
 	if err != nil {
@@ -254,6 +254,16 @@ func (r *ReplicaChecker) fixPeer(region *core.RegionInfo, storeID uint64, status
 		return nil
 	}
 	return op
+}
+
+// replacementPeer creates the peer that replaces the region's peer on oldStore. It keeps
+// the learner role, so that the replacement is added before the old peer is removed.
+func replacementPeer(region *core.RegionInfo, oldStore, newStore uint64) *metapb.Peer {
+	newPeer := &metapb.Peer{StoreId: newStore}
+	if core.IsLearner(region.GetStorePeer(oldStore)) {
+		newPeer.Role = metapb.PeerRole_Learner
+	}
+	return newPeer
 }
 
 func (r *ReplicaChecker) strategy(region *core.RegionInfo) *ReplicaStrategy {
